@@ -3,6 +3,7 @@ From Coq Require Import ZArith List Bool Lia.
 From GCA Require Import Wrap Bytes Bytes_lemmas Codec Amap Amap_lemmas Timeslot Timeslot_lemmas Server.
 Import ListNotations.
 Open Scope Z_scope.
+Set Default Proof Using "Type".
 Notation length := List.length.
 
 Lemma report_decode_some b r : report_decode b = Some r ->
